@@ -11,6 +11,7 @@ import ModVerif.Proofs.ZipASpec
 import ModVerif.Proofs.ZipAClassify
 import ModVerif.Proofs.ZipAVendor
 import ModVerif.Proofs.ZipAPerm
+import ModVerif.Proofs.ZipADir
 namespace ModVerif.Props.C17
 open ModVerif ModVerif.PathClean ModVerif.Zip ModVerif.ZipSpec ModVerif.Proofs.Zip
 
@@ -236,5 +237,54 @@ example : (exFilesNoColl.map (·.path)).Nodup ∧
   refine ⟨by decide +kernel, ?_, List.reverse_perm _⟩
   have : (checkFiles exEnv exFilesNoColl false).invalid = [] := by decide +kernel
   intro p r h; rw [this] at h; cases h
+
+
+/-- the hypothesis of `checkFilesV_perm` on the same example -/
+example : ∀ p r, (p, r) ∈ (checkFilesV exEnv exFilesNoColl).invalid → ¬ CollisionReason r := by
+  have : (checkFilesV exEnv exFilesNoColl).invalid = [] := by decide +kernel
+  intro p r h; rw [this] at h; cases h
+
+/-! ### directory tree vs list of its files -/
+
+/-- For a directory tree made only of regular files and directories, with ordinary names (no empty, `.`
+    or `..` name, no slash in a name, sibling names distinct: `WFChildren`, as every real directory) and
+    containing no VCS metadata directory, and with `g` the go version flag of its root go.mod: the
+    directory check and the check of the list of all its files (`allFiles`, in walk order) report the
+    same valid files, the same invalid files, the same size error and the same error; and creating from
+    the directory and creating from that list succeed or fail together, with the same entries (the same
+    files with the same content).  (`listFilesInDir` leaves out vendored files and the contents of nested
+    module directories; the list check omits exactly these anyway.) -/
+theorem dir_vs_list (E : Env) (mpath mvers : Bytes) (g : Bool) (t : List (Bytes × Node)) (hw : WFChildren t)
+    (hg : g = goVers (allFiles t)) :
+    (checkDir E g t).valid = (checkFilesV E (allFiles t)).valid ∧
+    (checkDir E g t).invalid = (checkFilesV E (allFiles t)).invalid ∧
+    (checkDir E g t).sizeError = (checkFilesV E (allFiles t)).sizeError ∧
+    (checkDir E g t).err = (checkFilesV E (allFiles t)).err ∧
+    createFromDir E mpath mvers g t = create E mpath mvers (allFiles t) :=
+  Proofs.ZipA.dir_vs_list E mpath mvers g t hw hg
+
+/-- the files of such a tree are regular and have clean, relative, pairwise distinct paths -/
+theorem allFiles_wellformed (t : List (Bytes × Node)) (hw : WFChildren t) :
+    ((allFiles t).map (·.path)).Nodup ∧
+    ∀ f ∈ allFiles t, f.mode = .regular ∧ pathClean f.path = f.path ∧ isAbs f.path = false :=
+  Proofs.ZipA.allFiles_facts t hw
+
+def exTree : List (Bytes × Node) :=
+  [(B "a", .dir [(B "b.go", .file .regular 1 (B "x") false)]),
+   (B "go.mod", .file .regular 2 (B "hi") false),
+   (B "sub", .dir [(B "c.go", .file .regular 1 (B "y") false), (B "go.mod", .file .regular 0 [] false)]),
+   (B "vendor", .dir [(B "p", .dir [(B "q.go", .file .regular 1 (B "z") false)])])]
+
+/-- the hypotheses of `dir_vs_list` on an example tree with a nested module and a vendored package, and
+    what both sides evaluate to -/
+example : WFChildren exTree ∧ false = goVers (allFiles exTree) ∧
+    (allFiles exTree).map (·.path) = [B "a/b.go", B "go.mod", B "sub/c.go", B "sub/go.mod", B "vendor/p/q.go"] ∧
+    (listFilesInDir false exTree).files.map (·.path) = [B "a/b.go", B "go.mod"] ∧
+    (checkDir exEnv false exTree).valid = [B "a/b.go", B "go.mod"] := by
+  refine ⟨?_, by decide +kernel, by decide +kernel, by decide +kernel, by decide +kernel⟩
+  simp only [exTree, WFChildren, WFNode, NormalElem, Node.isDir, List.forall_mem_cons, List.not_mem_nil,
+    false_imp_iff, implies_true, true_imp_iff, and_true]
+  repeat' apply And.intro
+  all_goals decide +kernel
 
 end ModVerif.Props.C17
